@@ -83,7 +83,11 @@ def common(c):
     c.cov["trace_result_classes"] = rep.get("op_counts", {})
     kf = os.path.join(c.scratch, "known.json")
     with open(kf, "w") as f:
-        json.dump([k["id"] for k in c.known], f)
+        # every OPEN finding of every property is excluded by name inside the specification (so that a
+        # listed finding of another property cannot crowd out this property's tags); only this
+        # property's own reproductions are reported as KNOWN-FINDING lines
+        allk = json.load(open(os.path.join(vf.VERIF, "known_findings.json")))["findings"]
+        json.dump([k["id"] for k in allk if k.get("status", "open") == "open"], f)
     os.environ["KNOWN_FILE"] = kf       # read by TraceChainAuth (IOEnv.KNOWN_FILE)
     res = vf.validate_trace(c, SPEC, "TraceChainAuth", "TraceChainAuth_%s.cfg" % pid, tr,
                             "random send / resubmission / re-encoding chains", ["vh-chain"] + [str(a) for a in targs], ntr, timeout=3000)
@@ -94,7 +98,8 @@ def common(c):
             if m:
                 seen.add(m.group(1))
     for kid in sorted(seen):
-        c.known_finding("%s %s" % (kid, next((k["what"] for k in c.known if k["id"] == kid), "")))
+        if any(k["id"] == kid for k in c.known):
+            c.known_finding("%s %s" % (kid, next((k["what"] for k in c.known if k["id"] == kid), "")))
     with open(tr) as f:
         evs = [json.loads(next(f)) for _ in range(6)]
         for e in evs:
